@@ -213,7 +213,7 @@ class Iv(AbsVal):
         return self
 
     # ------------------------------------------------------------- external
-    def av_ext(self, name, args, kwargs):
+    def av_ext(self, name, args, kwargs, interp=None):
         fn = IV_EXT.get(name)
         if fn is None:
             return NotImplemented
